@@ -67,4 +67,117 @@ def rocksGapScan (st : RocksSt) (p : Bytes) (chunk : List Entry) :
   | none => none
   | some (st', fl) => some (st', fl, (es, if p.isEmpty then st.laIndex else st'.laIndex))
 
+/-! ## general interleaving model: any schedule of apply steps and scan steps -/
+
+/-- Atomic steps. `apply_chunk` is serial (single SM worker): `applyData` then `applyLa`, never overlapping
+    with another apply.  A scan runs on another thread and may be scheduled anywhere. -/
+inductive Ev where
+  | applyData (chunk : List Entry)  -- apply_chunk up to the point where the data is visible
+  | applyLa                         -- `update_last_applied` of the chunk in flight
+  | scanIter (p : Bytes)            -- RocksDB: the iteration of a scan;  File: the whole (lock-protected) scan
+  | scanRev                         -- RocksDB: the revision read of the scan in flight
+deriving Repr
+
+/-- A completed scan with ghost versions: how many chunks the data it saw contained (`dataVer`) and how many
+    chunks had published `last_applied` when the revision was read (`laVer`). -/
+structure ScanObs where
+  pfx : Bytes
+  entries : List (Key × Val)
+  revision : Nat
+  dataVer : Nat
+  laVer : Nat
+deriving Repr
+
+structure RSys where
+  st : RocksSt
+  inflight : Option (List Entry) := none
+  scan : Option (Bytes × List (Key × Val) × Nat) := none
+  dataVer : Nat := 0
+  laVer : Nat := 0
+  /-- ghost: the states a purely sequential execution goes through (after 0, 1, 2, … chunks) -/
+  seq : List RocksSt
+  done : List ScanObs := []
+
+def RSys.init (st : RocksSt) : RSys := { st := st, seq := [st] }
+
+def lastOr {α : Type} (l : List α) (d : α) : α := l.getLast?.getD d
+
+/-- One step of the RocksDB engine under concurrency; `none` = step not enabled (or the ordering panic). -/
+def rstep (s : RSys) : Ev → Option RSys
+  | .applyData chunk =>
+    if s.inflight.isSome then none else
+    match rocksApplyWrite s.st chunk, rocksApplyChunk (lastOr s.seq s.st) chunk with
+    | some (st', _), some (sq, _) =>
+      some { s with st := st', inflight := some chunk, dataVer := s.dataVer + 1, seq := s.seq ++ [sq] }
+    | _, _ => none
+  | .applyLa =>
+    match s.inflight with
+    | none => none
+    | some chunk => some { s with st := rocksSetLa s.st chunk, inflight := none, laVer := s.laVer + 1 }
+  | .scanIter p =>
+    if s.scan.isSome || p.isEmpty then none
+    else some { s with scan := some (p, rocksIter s.st p, s.dataVer) }
+  | .scanRev =>
+    match s.scan with
+    | none => none
+    | some (p, es, d) =>
+      some { s with scan := none, done := s.done ++ [⟨p, es, s.st.laIndex, d, s.laVer⟩] }
+
+structure FSys where
+  st : FileSt
+  inflight : Option (List Entry) := none
+  dataVer : Nat := 0
+  laVer : Nat := 0
+  seq : List FileSt
+  done : List ScanObs := []
+
+def FSys.init (st : FileSt) : FSys := { st := st, seq := [st] }
+
+/-- One step of the File engine under concurrency (the scan is one step: both reads under the data lock). -/
+def fstep (s : FSys) : Ev → Option FSys
+  | .applyData chunk =>
+    if s.inflight.isSome then none else
+    match fileApplyMem s.st chunk, fileApplyChunk (lastOr s.seq s.st) chunk with
+    | some (st', _), some (sq, _) =>
+      some { s with st := st', inflight := some chunk, dataVer := s.dataVer + 1, seq := s.seq ++ [sq] }
+    | _, _ => none
+  | .applyLa =>
+    match s.inflight with
+    | none => none
+    | some chunk => some { s with st := fileSetLa s.st chunk, inflight := none, laVer := s.laVer + 1 }
+  | .scanIter p =>
+    some { s with done := s.done ++ [⟨p, (fileScan s.st p).1, (fileScan s.st p).2, s.dataVer, s.laVer⟩] }
+  | .scanRev => none
+
+def runSched {σ : Type} (step : σ → Ev → Option σ) : σ → List Ev → Option σ
+  | s, [] => some s
+  | s, e :: es => match step s e with
+    | none => none
+    | some s' => runSched step s' es
+
+/-- The exact trigger of F24: `update_last_applied` runs while a scan is between its two reads. -/
+def laInsideScanGap (s : RSys) : Ev → Bool
+  | .applyLa => s.scan.isSome
+  | _ => false
+
+/-- RocksDB steps with that trigger excluded. -/
+def rstepNoGap (s : RSys) (e : Ev) : Option RSys := if laInsideScanGap s e then none else rstep s e
+
+/-! ## client side: resynchronisation from a scan + watch events -/
+
+/-- A watch event: one successful mutation (`revision` = entry index). -/
+structure WEvent where
+  revision : Nat
+  key : Key
+  value : Option Val      -- `some v` = PUT, `none` = DELETE
+deriving Repr
+
+def applyEvent (s : Store) (e : WEvent) : Store := s.set e.key e.value
+
+def replay (s : Store) (es : List WEvent) : Store := es.foldl applyEvent s
+
+/-- Documented client rule: skip events with `revision ≤ scan.revision`, apply the rest. -/
+def resync (scanStore : Store) (scanRev : Nat) (buffered : List WEvent) : Store :=
+  replay scanStore (buffered.filter fun e => e.revision > scanRev)
+
 end DEngine.KV
